@@ -20,6 +20,7 @@ func init() {
 			"(S2) every account mutated (SubFromBalance / AddToBalance / IncreaseNonce, or handed to processTxFee which debits it) is passed to accounts.SaveAccount with the error checked before such an exit - " +
 			"an unsaved mutation is silently lost, so value disappears or the nonce does not advance. (S3) the fee debited from the sender is the very value handed to txFeeHandler.ProcessTransactionFee " +
 			"(same SSA value in executingFailedTransaction; processTxFee returns as first result a value it also debits). " +
+			"Every debit of processTxFee that a refusal-after-the-charge can follow is computed by the fee function the failure handler books to the collector; such refusals come only after the sender was saved. " +
 			"Not decided (value-level): amounts, the insufficient-funds classification, balance arithmetic inside the account.",
 		Run: runC23,
 	})
